@@ -2733,8 +2733,18 @@ static Node *cast(Token **rest, Token *tok) {
 //       | "&&" ident
 //       | postfix
 static Node *unary(Token **rest, Token *tok) {
-  if (equal(tok, "+"))
-    return cast(rest, tok->next);
+  if (equal(tok, "+")) {
+    // [https://www.sigbus.info/n1570#6.5.3.3p2] The integer promotions
+    // are performed on the operand, and the result, which is not an
+    // lvalue, has the promoted type.
+    Node *node = cast(rest, tok->next);
+    add_type(node);
+    if (!is_numeric(node->ty))
+      error_tok(tok, "invalid operand");
+    if (is_integer(node->ty) && node->ty->size < ty_int->size)
+      return new_cast(node, ty_int);
+    return new_cast(node, node->ty);
+  }
 
   if (equal(tok, "-"))
     return new_unary(ND_NEG, cast(rest, tok->next), tok);
